@@ -55,7 +55,7 @@ ABSENT = z3.Const('absent', Val)
 DT_NONE = z3.Const('dtype_None', Val)
 DT_USER = z3.Const('dtype_user', Val)
 
-KEYNAMES = ['meta', 'ka', 'kb', 'kc', 'seed', 'random_state', 'index_in_batch', 'batch_index']
+KEYNAMES = ['meta', 'ka', 'kb', 'kc', 'seed', 'random_state', 'index_in_batch', 'batch_index', 'submission_index', 'master_seed', 'model_name']
 KEYC = {n: z3.Const('key_' + n, Key) for n in KEYNAMES}
 KEY_AXIOMS = [z3.Distinct(*KEYC.values())]
 
@@ -122,6 +122,9 @@ class Opaque(Sym):
 
     def _vc_fresh_like(self, name):
         return Opaque(cur().fresh(name, Val))
+
+    def __bool__(self):
+        raise OutOfSubset('truth value of an opaque object')
 
     def __repr__(self):
         return '%s(%s)' % (type(self).__name__, self.t)
@@ -434,8 +437,14 @@ class RunVectorized(Contract):
         dtv = {'none': None, 'user': Opaque(DT_USER), 'false': False}[dt]
         kwargs = dict(dtype=dtv, kwx=kwx)
         cidx = tuple(i for i, kd in enumerate(kinds) if kd == 'C')
+        # the mask object handed in by the caller (vectorize binds ONE such object for all later calls): tuple or list, or None
         if cidx or self.empty_constants:
-            kwargs['constants'] = cidx
+            container = vc.fork_values('constants_container', ['tuple', 'list'])
+        else:
+            container = vc.fork_values('constants_container', ['none', 'list'])
+        cobj = None if container == 'none' else (list(cidx) if container == 'list' else cidx)
+        if cobj is not None:
+            kwargs['constants'] = cobj
         if has_meta:
             kwargs['meta'] = meta
         if bs_given:
@@ -454,7 +463,7 @@ class RunVectorized(Contract):
         def expected(j):
             return app(j) if dt == 'false' else ITEM(DT_NONE if dt == 'none' else DT_USER, app(j))
         s = NS(dt=dt, has_meta=has_meta, bs_given=bs_given, lens=[n for n in lens if n is not None], bs=bs, B=B, agree=agree,
-               app=app, expected=expected, log=log, meta=meta)
+               app=app, expected=expected, log=log, meta=meta, cobj=cobj, cidx=cidx, ins=tuple(ins), kwx=kwx)
         return s, tuple([op] + ins), kwargs
 
     def requires(self, s):
@@ -482,7 +491,7 @@ class RunVectorized(Contract):
         return {1: Loop(inv=self._inv, modifies=self._mod, snapshot=lambda s, l: {'acc': _find_acc(l)})}
 
     def raises(self, s):
-        return {'ValueError': z3.Not(s.agree)}
+        return {'ValueError': z3.And([z3.Not(s.agree)] + [f for _, f in self._frame(s)])}
 
     def iff_raises(self, s):
         return [('normal return only if all array lengths (and batch_size when given) agree', s.agree)]
@@ -495,7 +504,19 @@ class RunVectorized(Contract):
                  + (' kept as object' if s.dt == 'false' else ' through np.array(.., dtype)'),
                  forall_range(0, s.B, lambda j: elt(j) == s.expected(j), 'j')),
                 ('dtype=False returns the object array itself, otherwise np.array(outputs, dtype)', z3.BoolVal(kind_ok)),
-                ('the operation is called exactly once per row', s.log.n == s.B)]
+                ('the operation is called exactly once per row', s.log.n == s.B)] + self._frame(s)
+
+    def _frame(self, s):
+        """whole-view frame on the caller's argument objects: the mask bound by vectorize is reused by every later call"""
+        if s.cobj is None:
+            return []
+        now = s.cobj
+        ok_type = type(now) in (list, tuple) and all(type(x) is int for x in now)
+        if not ok_type:
+            return [("frame: the caller's constants object is not modified", z3.BoolVal(False))]
+        return [("frame: the caller's constants object is not modified (same length)", z3.IntVal(len(now)) == z3.IntVal(len(s.cidx))),
+                ("frame: the caller's constants object is not modified (same entries)",
+                 z3.And([z3.IntVal(a) == z3.IntVal(b) for a, b in zip(now, s.cidx)] + [z3.BoolVal(len(now) == len(s.cidx))]))]
 
     def witness(self, vc, model, ob):
         ev = lambda t: str(model.eval(t, model_completion=True))
@@ -607,6 +628,7 @@ class UnpackMeta(Contract):
             kw['meta'] = s.meta
         elif self.mode == 'concrete-meta':
             s.mvals = dict(ka=Opaque(z3.Const('meta_ka', Val)), kc=Opaque(z3.Const('meta_kc', Val)), index_in_batch=SInt(z3.Int('iib')))
+            s.mvals.update(meta_entries(vc, s))
             s.meta = dict(s.mvals)
             kw['meta'] = s.meta
         s.kw = kw
@@ -659,6 +681,16 @@ class RSProxy(Opaque):
         return ('MT19937', StateVec(self.word), 624, 0, 0.0)
 
 
+def meta_entries(vc, s):
+    """the entries elfi's loader puts into the run metadata (elfi/loader.py: batch_index, submission_index, master_seed,
+    model_name) as SYMBOLIC values; integers are non-negative and otherwise unconstrained"""
+    b, sub, ms = z3.Int('batch_index'), z3.Int('submission_index'), z3.Int('master_seed')
+    vc.fin_bounds.extend([b, sub, ms])
+    s.__dict__['meta_requires'] = [b >= 0, sub >= 0, ms >= 0]
+    s.__dict__['batch_index'] = b
+    return dict(batch_index=SInt(b), submission_index=SInt(sub), master_seed=SInt(ms), model_name=Opaque(z3.Const('model_name', Val)))
+
+
 def _gss_spec(vc, seed, sub_seed_index, high=HIGH, cache=None):
     """C15's contract of elfi.utils.get_sub_seed seen from a caller: requires a non-generator seed and
     0 <= index < high; returns sub_seed(seed, index) in [0, high); different indices of one seed give
@@ -701,6 +733,7 @@ class PrepareSeed(Contract):
         vc.fin_bounds.extend([w, i])
         s = NS(x=(x0,), w=w, i=i)
         kw = dict(ka=Opaque(z3.Const('explicit_ka', Val)))
+        kw.update(meta_entries(vc, s))      # what unpack_meta delivers when the node uses meta
         if self.mode != 'no-rs':
             kw['random_state'] = RSProxy(z3.Const('random_state', Val), w)
         if self.mode == 'rs+index':
@@ -711,7 +744,7 @@ class PrepareSeed(Contract):
         return s, s.x, dict(kw)
 
     def requires(self, s):
-        return [s.w >= 0, s.w < 2 ** 32, s.i >= 0, s.i < HIGH]
+        return [s.w >= 0, s.w < 2 ** 32, s.i >= 0, s.i < HIGH] + s.meta_requires
 
     def ensures(self, s, result):
         if not (isinstance(result, tuple) and len(result) == 2):
@@ -736,10 +769,11 @@ class LemmaRows(Contract):
         w, i, j = z3.Ints('state_word i j')
         vc.fin_bounds.extend([w, i, j])
         rs = RSProxy(z3.Const('random_state', Val), w)
-        return NS(w=w, i=i, j=j), (rs, SInt(i), SInt(j)), {}
+        s = NS(w=w, i=i, j=j)
+        return s, (rs, SInt(i), SInt(j), meta_entries(vc, s)), {}
 
     def requires(self, s):
-        return [s.w >= 0, s.w < 2 ** 32, s.i >= 0, s.i < HIGH, s.j >= 0, s.j < HIGH]
+        return [s.w >= 0, s.w < 2 ** 32, s.i >= 0, s.i < HIGH, s.j >= 0, s.j < HIGH] + s.meta_requires
 
     def ensures(self, s, result):
         a, b = result
@@ -848,12 +882,14 @@ class RunExternal(Contract):
         w, i = z3.Int('state_word'), z3.Int('index_in_batch')
         vc.fin_bounds.extend([w, i])
         s.w, s.i = w, i
+        s.meta_requires = []
         kw = dict(ka=Opaque(z3.Const('explicit_ka', Val)))
         if self.rs:
             kw['random_state'] = RSProxy(z3.Const('random_state', Val), w)
         s.mvals = None
         if self.meta:
-            s.mvals = dict(ka=Opaque(z3.Const('meta_ka', Val)), batch_index=Opaque(z3.Const('meta_batch_index', Val)))
+            s.mvals = dict(ka=Opaque(z3.Const('meta_ka', Val)))
+            s.mvals.update(meta_entries(vc, s))
             if s.iib_where == 'meta':
                 s.mvals['index_in_batch'] = SInt(i)
             s.meta_obj = dict(s.mvals)
@@ -868,7 +904,7 @@ class RunExternal(Contract):
         return s, tuple([s.cmd]) + s.x, call_kw
 
     def requires(self, s):
-        return [s.w >= 0, s.w < 2 ** 32, s.i >= 0, s.i < HIGH]
+        return [s.w >= 0, s.w < 2 ** 32, s.i >= 0, s.i < HIGH] + s.meta_requires
 
     def _expected(self, s):
         """kwinputs' of the statement: meta entries, overridden by explicit keywords, plus the seed"""
